@@ -584,6 +584,8 @@ class Gen:
             c.append(['chg', neg, 'none' if opts[neg] == 'none' else self.val(opts[neg], 4)])
             c.append(['chg', -len(opts) - 1, 'none'])
             for i, o in enumerate(opts):
+                if o != 'none':
+                    c.append(['chg', i, 'none'])       # None as the value of a TYPED option (only the constructor defaults it)
                 if o == 'none':
                     c.append(['chg', i, r.choice(['5', '0', '0'])])
                 elif is_basic(o) and o not in ('u256', 'bool'):
